@@ -85,10 +85,12 @@ def findFrom (c : Char) (s : Str) (start : Nat) : Option Nat :=
     | d :: ds, i => if start ≤ i ∧ d = c then some i else go ds (i + 1)
   go s 0
 
-/-- try to match `text\s*=\s*[{'"]` at the head; returns (length of match, closing delimiter). -/
+def isAlpha (c : Char) : Bool := ('a' ≤ c && c ≤ 'z') || ('A' ≤ c && c ≤ 'Z')
+
+/-- try to match `[a-zA-Z]+\s*=\s*[{'"]` at the head; returns (length of match, closing delimiter). -/
 def matchTextDelim (s : Str) : Option (Nat × Char) :=
-  if "text".toList.isPrefixOf s then
-    let r1 := s.drop 4
+  if (s.takeWhile isAlpha) ≠ [] then
+    let r1 := s.dropWhile isAlpha
     let r2 := r1.dropWhile isSpace
     match r2 with
     | '=' :: r3 =>
@@ -134,7 +136,6 @@ def splitLines (s : Str) : List Str :=
 
 /-! ### lex: metadata regular expression -/
 
-def isAlpha (c : Char) : Bool := ('a' ≤ c && c ≤ 'z') || ('A' ≤ c && c ≤ 'Z')
 def isAlnum (c : Char) : Bool := isAlpha c || c.isDigit
 
 /-- `[-?\d+\.?\d*]` -/
@@ -235,6 +236,18 @@ def dshapeOfWord (w : Str) : Option DShape :=
   else if w = "text".toList then some .text
   else none
 
+/-- frames DS9 knows and regions does not (`linear`, `physical`, `wcs`, `wcsa` … `wcsz`, …). -/
+def isUnsupportedFrame (w : Str) : Bool :=
+  w ∈ ["linear".toList, "amplifier".toList, "detector".toList, "physical".toList, "tile".toList,
+       "wcs".toList, "wcs0".toList] ||
+  (match w with
+   | ['w', 'c', 's', c] => 'a' ≤ c && c ≤ 'z'
+   | _ => false)
+
+def isUnsupportedShape (w : Str) : Bool :=
+  w ∈ ["vector".toList, "ruler".toList, "compass".toList, "projection".toList, "panda".toList,
+       "epanda".toList, "bpanda".toList]
+
 def readParams : List Str → Except String (List ℚ)
   | [] => .ok []
   | t :: ts =>
@@ -272,7 +285,11 @@ def lexLine (orig : Str) : Except String (Option RLine) :=
       | some f => .ok (some (.frame f))
       | none =>
         match dshapeOfWord word with
-        | none => .error "OutOfModel"
+        | none =>
+          if isUnsupportedFrame word then .ok (some .noframe)      -- warning, frame reset
+          else if isUnsupportedShape word then .ok none             -- warning, skipped
+          else if word = "composite".toList then .error "OutOfModel"
+          else .ok none                                             -- not a frame or shape: warning, skipped
         | some sh =>
           -- _parse_shape_line
           let rest := orig.drop spanEnd
@@ -285,7 +302,7 @@ def lexLine (orig : Str) : Except String (Option RLine) :=
           let ps := lower (ps.filter fun c => c ≠ '(' ∧ c ≠ ')')
           match readParams (splitParams ps) with
           | .error e => .error e
-          | .ok nums => .ok (some (.shape (sign = some true) sh nums (parseMetadata (strip ms))))
+          | .ok nums => .ok (some (.shape sign sh nums (parseMetadata (strip ms))))
 
 def lexLines : List Str → Except String ROut
   | [] => .ok []
@@ -325,21 +342,22 @@ def bareWord (w : Str) : Bool :=
   | [] => false
 
 def valueSafe (isText : Bool) (v : Str) : Bool :=
-  (isText || noBreak v) && v.all (fun c => c ≠ '\n') &&
+  v.all (fun c => c ≠ '\n') &&
   (delimited '{' '}' v ||
    (!isText && (
      delimited '"' '"' v || delimited '\'' '\'' v ||
-     (match v with
-      | c :: _ => inC3 c && !isSpace c && v.all inC3
-      | [] => false) ||
-     bareWord v ||
-     (match splitOn1 isSpace v with
-      | (w, some d) => bareWord w && d ≠ [] && d.all inC4
-      | _ => false))))
+     (noBreak v &&
+      ((match v with
+        | c :: _ => inC3 c && !isSpace c && v.all inC3
+        | [] => false) ||
+       bareWord v ||
+       (match splitOn1 isSpace v with
+        | (w, some d) => bareWord w && d ≠ [] && d.all inC4
+        | _ => false))))))
 
 def dictSafe (m : Dict) : Bool :=
   m.all fun kv =>
-    if kv.1 = .tag then (tagElems kv.2).all fun s => noBreak s && s.all (fun c => c ≠ '}')
+    if kv.1 = .tag then (tagElems kv.2).all fun s => s.all (fun c => c ≠ '}' && c ≠ '\n')
     else valueSafe (decide (kv.1 = .text)) (pyStr kv.2) &&
       (match kv.1 with
        | .other _ => false
